@@ -1,6 +1,10 @@
 //! C02 — banded::Aligner, all nine entry points; one line = one history of calls on ONE aligner.
 //!
-//! `const => min:<MIN_SCORE>`
+//! `const => min:<MIN_SCORE>`          run-time value of the compiled pub constant
+//! `docbudget => doc:<n|none>,max:<n>`  read in the compiled source text of banded.rs (`include_str!`): the number the doc
+//!                                     comment states for the budget ("MAX_CELLS (currently set to 10 million)") and the
+//!                                     private `const MAX_CELLS: usize = …;` — the driver compares both with what
+//!                                     tools/gen_tables.py extracted into lean/RbV/Gen/Limits.lean
 //! `cap:<m>:<n>|cap:new kw:<k>:<w> sc:… w:… <call>;<call>;… => <aln>,h:same|differs;…`
 //! call = `<entry>,<x>,<y>[,<args>…]`:
 //!   custom | global | semiglobal | local         the four modes, backbone computed internally
@@ -19,6 +23,107 @@ use bio::alignment::pairwise::banded::Aligner;
 use bio::alignment::pairwise::MIN_SCORE;
 use bio::alignment::sparse::{find_kmer_matches, hash_kmers};
 use bio::alignment::Alignment;
+
+/// the source text this harness was compiled against (bio-src points to the tree under test)
+const BANDED_SRC: &str = include_str!("../bio-src/src/alignment/pairwise/banded.rs");
+
+/// comment leaders at line starts removed, white space collapsed (same normalisation as `flatten_comments` of
+/// tools/gen_tables.py)
+fn flatten_comments(src: &str) -> String {
+    let mut words: Vec<&str> = vec![];
+    for ln in src.lines() {
+        let mut t = ln.trim();
+        for lead in ["///", "//!", "//"] {
+            if let Some(r) = t.strip_prefix(lead) {
+                t = r;
+                break;
+            }
+        }
+        words.extend(t.split_whitespace());
+    }
+    words.join(" ")
+}
+
+/// `<digits[_,]>[.<digits>] [thousand|million|billion]` → value; None when it is anything else
+fn parse_doc_number(s: &str) -> Option<u64> {
+    let parts: Vec<&str> = s.split_whitespace().collect();
+    if parts.is_empty() || parts.len() > 2 {
+        return None;
+    }
+    let unit: u64 = match parts.get(1).copied() {
+        None => 1,
+        Some("thousand") => 1_000,
+        Some("million") => 1_000_000,
+        Some("billion") => 1_000_000_000,
+        Some(_) => return None,
+    };
+    let (ip, fp) = match parts[0].split_once('.') {
+        Some((a, b)) => (a, b),
+        None => (parts[0], ""),
+    };
+    if ip.is_empty() || !ip.as_bytes()[0].is_ascii_digit() || !ip.bytes().all(|c| c.is_ascii_digit() || c == b'_' || c == b',')
+        || !fp.bytes().all(|c| c.is_ascii_digit()) || (parts[0].contains('.') && fp.is_empty())
+    {
+        return None;
+    }
+    let digits: String = ip.chars().filter(|c| c.is_ascii_digit()).chain(fp.chars()).collect();
+    let num = digits.parse::<u64>().ok()?.checked_mul(unit)?;
+    let den = 10u64.checked_pow(fp.len() as u32)?;
+    if num % den != 0 {
+        return None;
+    }
+    Some(num / den)
+}
+
+/// the value(s) the documentation states: `MAX_CELLS (currently set to <number>)`
+fn doc_budget(src: &str) -> Result<Option<u64>, String> {
+    const PHRASE: &str = "MAX_CELLS (currently set to ";
+    let flat = flatten_comments(src);
+    let mut vals: Vec<u64> = vec![];
+    let mut pos = 0;
+    while let Some(i) = flat[pos..].find(PHRASE) {
+        let start = pos + i + PHRASE.len();
+        let j = start + flat[start..].find(')').ok_or("unclosed")?;
+        vals.push(parse_doc_number(&flat[start..j]).ok_or("unparsable")?);
+        pos = j;
+    }
+    vals.dedup();
+    match vals.len() {
+        0 => Ok(None),
+        1 => Ok(Some(vals[0])),
+        _ => Err("inconsistent".into()),
+    }
+}
+
+/// `const MAX_CELLS: usize = <decimal literal>;` in the source text (comment lines skipped); None if not of that shape
+fn src_max_cells(src: &str) -> Option<u64> {
+    let mut found = None;
+    for ln in src.lines() {
+        let t = ln.trim();
+        if let Some(r) = t.strip_prefix("const MAX_CELLS: usize =") {
+            let lit: String = r.trim().trim_end_matches(';').trim().chars().filter(|&c| c != '_').collect();
+            let lit = lit.strip_suffix("usize").unwrap_or(&lit).to_string();
+            if found.is_some() {
+                return None;
+            }
+            found = Some(lit.parse::<u64>().ok()?);
+        }
+    }
+    found
+}
+
+/// (rows, cols) with rows*cols == budget exactly when the budget has a divisor in 1000..=4000 (closest to 2000),
+/// otherwise rows = 2000 and the largest cols with rows*cols <= budget
+fn boundary_dims(budget: u64) -> (u64, u64) {
+    let mut best: Option<u64> = None;
+    for d in 1000..=4000u64 {
+        if budget % d == 0 && best.map_or(true, |b| (d as i64 - 2000).abs() < (b as i64 - 2000).abs()) {
+            best = Some(d);
+        }
+    }
+    let rows = best.unwrap_or(2000);
+    (rows, budget / rows)
+}
 
 
 fn subset(ms: &[(u32, u32)], bits: u64) -> Vec<(u32, u32)> {
@@ -180,6 +285,15 @@ fn run(al: &mut Aligner<TabFn>, c: &Call, k: usize) -> Alignment {
 pub fn exec(toks: &[&str]) -> Result<String, String> {
     if toks == ["const"] {
         return Ok(format!("min:{}", MIN_SCORE));
+    }
+    if toks == ["docbudget"] {
+        let doc = match doc_budget(BANDED_SRC) {
+            Ok(Some(v)) => v.to_string(),
+            Ok(None) => "none".into(),
+            Err(e) => e,
+        };
+        let max = src_max_cells(BANDED_SRC).map_or("not-found".to_string(), |v| v.to_string());
+        return Ok(format!("doc:{},max:{}", doc, max));
     }
     if toks.len() != 5 {
         return Err("arity".into());
@@ -389,12 +503,21 @@ pub fn gen(tier: &str, rng: &mut Rng, out: &mut Vec<String>) {
         let calls: Vec<String> = (0..ncalls).map(|_| gen_call(rng, &sc, k, maxlen)).collect();
         out.push(format!("{} kw:{}:{} {} {}", gen_cap(rng), k, w, sc.tokens(), calls.join(";")));
     }
-    // budget guard: disjoint alphabets (no k-mer match: the band is the whole matrix), at the exact boundary
+    // budget guard: disjoint alphabets (no k-mer match: the band is the whole matrix, num_cells = (m+1)(n+1)), at the
+    // exact boundary of the budget of the tree under test (`const MAX_CELLS` read in the compiled source text; the
+    // model follows the same constant).  Pinned tree, 5 000 000:
     //   1999 x 2500: 2000 * 2501 = 5 002 000 cells > 5 000 000 → the sentinel is the only accepted answer
     //   1999 x 2499: 2000 * 2500 = 5 000 000 cells (not >)     → a real alignment (validity and recomputed score)
+    // A budget outside 10^6..2·10^7 (case too cheap to say anything / too slow for the quick tier) or an unreadable
+    // constant falls back to these two; they are valid cases for every budget.
     let unit = "sc:-5:-1:0:0:0:0 w:4143:1,-1,-1,1";
-    out.push(format!("cap:0:0 kw:{}:{} {} big,-,-,1999,2500", 1 + rng.below(4), rng.below(5), unit));
-    out.push(format!("cap:0:0 kw:{}:{} {} big,-,-,1999,2499", 1 + rng.below(4), rng.below(5), unit));
+    let (rows, cols) = match src_max_cells(BANDED_SRC) {
+        Some(b) if (1_000_000..=20_000_000).contains(&b) => boundary_dims(b),
+        _ => (2000, 2500),
+    };
+    out.push(format!("cap:0:0 kw:{}:{} {} big,-,-,{},{}", 1 + rng.below(4), rng.below(5), unit, rows - 1, cols));
+    out.push(format!("cap:0:0 kw:{}:{} {} big,-,-,{},{}", 1 + rng.below(4), rng.below(5), unit, rows - 1, cols - 1));
+    out.push("docbudget".to_string());
     if thorough {
         // exhaustive small scope: x, y over {A,C} up to length 5, k <= 2, w <= 2, 6 schemes, entry
         // points in rotation; one x against every y per history
